@@ -151,6 +151,8 @@ def sweep(tier):
     top = 96 if tier == 'thorough' else 64
     for lo in range(2, top + 1, 32):
         yield {'nt_sweep': [lo, min(lo + 32, top + 1)]}
+    # particle counts beyond 2^20 and not a multiple of it (where chunked / blocked paths of the painting live)
+    yield {'big_n': (1 << 20) + 300007, 'nmesh': 32}
 
 
 def _nt_sweep(case, out):
@@ -187,9 +189,39 @@ def _nt_sweep(case, out):
     return out
 
 
+def _big_n(case, out):
+    from abacusnbody.analysis import power_spectrum as rps
+    N, nmesh = case['big_n'], case['nmesh']
+    L = 100.0
+    g = np.random.default_rng(131)
+    pos = (g.random((N, 3)) * L).astype(np.float32)
+    perm = g.permutation(N)
+    site = 'calc_power[compiled]'
+    for paste, interlaced in (('CIC', True), ('TSC', False), ('TSC', True)):
+        try:
+            kw = dict(kbins=4, mubins=2, paste=paste, nmesh=nmesh, compensated=True, interlaced=interlaced, poles=[0, 2],
+                      nthread=4, dtype=np.float32)
+            a = _table(rps.calc_power(pos.copy(), L, **kw))
+            b = _table(rps.calc_power(pos[perm], L, **kw))
+        except Exception as e:
+            violation(out, 'raises:' + type(e).__name__, site, {'N': N, 'paste': paste, 'error': repr(e)[:300]})
+            return out
+        _compare(out, 'permutation', site, a, b, 2e-5)
+        if out['violations']:
+            out['violations'][-1]['detail'] = dict(out['violations'][-1]['detail'], N=N, paste=paste, interlaced=interlaced)
+            return out
+    bump(out['probes'], 'more-than-2^20-particles')
+    out['events'].append(['big_n', N])
+    out['steps'] = 6
+    out['nontrivial'] = ['big_n', N]
+    return out
+
+
 def run(case):
     if case.get('nt_sweep'):
         return _nt_sweep(case, new_outcome())
+    if case.get('big_n'):
+        return _big_n(case, new_outcome())
     from abx_sim.analysis import power_spectrum as ps
     from e1_threads import harness as H
     from e1_threads.sched import SIM
@@ -295,6 +327,8 @@ def _compiled(case, pos, w, perm, base, out, tol):
 
 
 def shrink(case):
+    if case.get('big_n'):
+        return
     if case.get('nt_sweep'):
         lo, hi = case['nt_sweep']
         if hi - lo > 1:
